@@ -12,6 +12,7 @@ of node functions.
 from __future__ import annotations
 
 import dataclasses
+import warnings
 from typing import Any, Callable, Dict, List, Optional, Tuple
 
 from harness.common import watchdog, Counter, term_fn
@@ -156,8 +157,9 @@ class Gen:
         return pool[ref[1]][ref[2]]
 
     def flag(self, L: str, last: int, default: Any = None) -> Any:
+        # (two statements can be flagged by different parts of one value: x[0] and x[1] of the DAG input)
         alts = [None, ("const", True), ("const", False), ("const", None), ("const", 0), ("const", 3), ("pool", last), ("pool", 1),
-                ("idx", last, 0)]
+                ("idx", last, 0), ("idx", 0, 0), ("idx", 0, 1)]
         return self.ref(L + ".flag", default, alts)
 
     # ---- statements ----------------------------------------------------------------------------
@@ -279,6 +281,7 @@ def build_inner(c: Ctx, M: Mode, H: Holes, name: str, depth: int) -> None:
     if with_debug:
         M.debug_used = True
     ownflag = (None, "p", "pidx", False)[H.hole(name + ".ownflag", 3)]
+    hname = ("h", "hq")[H.hole(name + ".dotted", 1)]  # hq: a node function with a dotted qualified name (a method, a local function)
 
     def body(*params: Any) -> Any:
         p = params[0]
@@ -290,7 +293,7 @@ def build_inner(c: Ctx, M: Mode, H: Holes, name: str, depth: int) -> None:
         elif argform == "kwidx":
             kw["k"] = args.pop()["k"]
         flag = NOFLAG if ownflag is None else (p if ownflag == "p" else (p[0] if ownflag == "pidx" else False))
-        u = M.call("h", args, kw, flag)
+        u = M.call(hname, args, kw, flag)
         if with_debug:
             M.call("hd", [u], {})  # its value is not used; whether it runs is compared through the entry counts
         if nested:
@@ -338,8 +341,10 @@ def run_dataflow(cfg: DCfg, c: Ctx) -> Any:
     res = {"m": Resource.main_thread, "t": Resource.thread, "a": Resource.async_thread}
     resource = res[cfg.resources[H.hole("res", len(cfg.resources) - 1)]]
     flavour = cfg.flavours[H.hole("flavour", len(cfg.flavours) - 1)]
-    for name, unpack in (("f", None), ("g", None), ("h", None), ("f2", 2), ("hd", None)):
+    for name, unpack in (("f", None), ("g", None), ("h", None), ("f2", 2), ("hd", None), ("hq", None)):
         plain = term_fn(name, cnt)
+        if name == "hq":
+            plain.__qualname__ = "Owner.hq"
         M.fn[name] = (plain, xn(plain, unpack_to=unpack, resource=resource, debug=(name == "hd")), unpack)
     g = Gen(c, cfg, M, H, cnt)
     # ---- draw the program
@@ -481,3 +486,106 @@ def _reconfigure(c: Ctx, H: Holes, d: Any) -> None:
             d.config_from_yaml(path)
     finally:
         os.unlink(path)
+
+
+# ------------------------------------------------------------------------------------------------ nested DAGs that were derived
+@dataclasses.dataclass(frozen=True)
+class NCfg:
+    twin: bool = False
+
+
+@watchdog(lambda cfg: "C20")
+def run_nested_derived(cfg: NCfg, c: Ctx) -> Any:
+    """The inner DAG of a nesting is itself derived: composed from a base DAG (its node table is then not in description
+    order), reconfigured, deep-copied or already called / set up before it is embedded.  The outer DAG must equal the
+    plain evaluation of the same body written in place."""
+    import copy as _copy
+
+    from tawazi import Resource, dag, xn
+    from tawazi.errors import TawaziBaseException
+
+    warnings.simplefilter("ignore")
+    cnt = Counter()
+    how = ("composed", "composed-twice", "reconfigured", "deep-copied", "called-before")[c.choose(5, "derivation")]
+    use = ("forward", "index", "flagged")[c.choose(3, "use")]
+    res = (Resource.main_thread, Resource.thread)[c.choose(2, "resource")]
+    names = ["h1", "h2", "h3", "h4", "h5", "f", "g"]
+    plain = {n: term_fn(n, cnt) for n in names}
+    X = {n: xn(plain[n], resource=res) for n in names}
+
+    def base_body(F: Dict[str, Any], p: Any, q: Any) -> Any:
+        a = F["h1"](p)
+        b = F["h2"](a, q)
+        cc = F["h3"](b)
+        d_ = F["h4"](cc, k=a)
+        e = F["h5"](d_, b)
+        return e, cc
+
+    def base(p, q=5):  # type: ignore[no-untyped-def]
+        return base_body(X, p, q)
+
+    base.__qualname__ = base.__name__ = "base"
+    B = dag(base)
+    # the inner DAG and its plain meaning as a function of the value the outer DAG passes in
+    if how in ("composed", "composed-twice"):
+        inner = B.compose("core", [X["h1"]], [X["h5"], X["h3"]])  # the supplied value stands for h1's result
+        if how == "composed-twice":
+            inner = inner.compose("core2", ..., [X["h5"], X["h3"]])
+
+        def inner_plain(v: Any) -> Any:
+            b = plain["h2"](v, 5)
+            cc = plain["h3"](b)
+            return plain["h5"](plain["h4"](cc, k=v), b), cc
+    else:
+        inner = B
+        if how == "reconfigured":
+            inner.config_from_dict({"nodes": {"h3": {"priority": 4}, "h4": {"is_sequential": True}}})
+        elif how == "deep-copied":
+            inner = _copy.deepcopy(B)
+        elif how == "called-before":
+            B(c.val("earlier"))
+            cnt.reset()
+
+        def inner_plain(v: Any) -> Any:
+            return base_body(plain, v, 5)
+    def outer_body(F: Dict[str, Any], sub: Any, x: Any, plain_mode: bool) -> Any:
+        u = F["f"](x)
+        if use == "flagged":
+            if plain_mode:
+                r = sub(u) if x else (None, None)
+            else:
+                r = sub(u, twz_active=x)
+        else:
+            r = sub(u)
+        if use == "index":
+            return F["g"](r[0]), r[1]
+        return r
+
+    def outer(x):  # type: ignore[no-untyped-def]
+        return outer_body(X, inner, x, False)
+
+    outer.__qualname__ = outer.__name__ = "outer"
+    data: Dict[str, Any] = {"derivation": how, "use": use, "resource": res.value}
+    try:
+        O = dag(outer)
+    except SXControl:
+        raise
+    except (TawaziBaseException, KeyError, ValueError, TypeError) as e:
+        c.check(False, "embedding a %s DAG failed with %r where the body written in place is valid" % (how, e), prop="C20", data=data)
+        raise
+    xv = c.val("x")
+    cnt.reset()
+    got = O(xv)
+    counts = dict(cnt.n)
+    cnt.reset()
+    want = outer_body(plain, inner_plain, xv, True)
+    counts_plain = dict(cnt.n)
+    c.check(veq(got, want), "DAG result differs from the plain-Python evaluation of the body written in place", prop="C20", data={**data, "got": got, "want": want})
+    c.check(counts == counts_plain, "node functions entered %s, the body written in place enters %s" % (counts, counts_plain), prop="C20", data=data)
+    ids = list(O.exec_nodes)
+    c.check(len(ids) == len(set(ids)), "node ids collide", prop="C20", data=data)
+    c.cover("w_derived_" + how)
+    c.cover("states", hash((how, use, res.value)))
+    if cfg.twin:
+        c.check(False, "reachability twin: the end of the harness is reachable", prop="TWIN")
+    return data
